@@ -168,6 +168,23 @@ def cases(tier, seed):
                                                         Variant("VariantOne", [], extra=[("last", B)])], rename_all="snake_case", extra=[("last", B)]), multi=True)
     add("rename_all_struct_then_bound", st("Display", [], rename_all="SCREAMING_SNAKE_CASE", name="HttpError", extra=[("last", B)]))
     add("rename_all_struct_after_bound", st("Display", [], rename_all="snake_case", name="XMLThing", extra=[("first", B)]))
+    # raw identifiers as the NAME of a unit struct / unit variant under rename_all at struct, enum and variant level: the name is
+    # un-rawed first, then converted (seed C02_r2_1: "r#type", "R#YIELD", "r#try-block")
+    add("rename_all_raw_enum_kebab", en("Display", [Variant("r#type", []), Variant("r#TryBlock", []), Variant("r#Yield", []), Variant("Plain", [])],
+                                         rename_all="kebab-case"), multi=True)
+    add("rename_all_raw_enum_upper", en("Display", [Variant("r#Yield", []), Variant("r#TryBlock", []), Variant("r#fn", [])], rename_all="UPPERCASE"), multi=True)
+    add("rename_all_raw_variant_level", en("Display", [Variant("r#TryBlock", [], rename_all="snake_case"), Variant("r#type", [], rename_all="PascalCase"),
+                                                       Variant("r#Yield", [])]), multi=True)
+    add("rename_all_raw_struct_snake", st("Display", [], rename_all="snake_case", name="r#TryBlock"))
+    add("rename_all_raw_struct_screaming", st("Display", [], rename_all="SCREAMING-KEBAB-CASE", name="r#Yield"))
+    # derive(Debug): variants WITHOUT an attribute after variants WITH one print by themselves (reference: core's own DebugTuple /
+    # DebugStruct builders and the name, under the default formatter; seed C02_r2_3: they inherited the preceding variant's format)
+    add("debug_attr_then_plain_variants", en("Debug", [
+        Variant("First", [], attr=Attr(["DBG"])), Variant("Info", []), Variant("Square", T1), Variant("Pair", T2), Variant("Rec", ["x"]),
+        Variant("Last", [], attr=Attr(["last"])), Variant("AfterLast", [])]))
+    add("debug_field_attr_then_plain_variants", en("Debug", [
+        Variant("Before", T1), Variant("Circle", T1, attr=Attr(["circle of ", P("_0")])), Variant("Square", T1), Variant("Rect", T2),
+        Variant("Named", ["x"], attr=Attr([P("x", "x")])), Variant("Other2", ["x"])]))
     # 10. Debug with a variant-level attribute
     add("debug_variant_attr", en("Debug", [Variant("Other", T1), Variant("V", N2, attr=Attr([P("a"), " ", P("b", "x"), " ", P(None, "?")], ["a.twin()"]))]))
     if tier == "thorough":
@@ -211,6 +228,16 @@ def thorough(add, seed):
 
 
 # ----------------------------------------------------------------------------------------------------
+def ref_debug_builder(v):
+    """derive(Debug) without an attribute: what core's own builders print for the variant (flat form; the formatter is the default one)"""
+    name = v.name[2:] if v.name.startswith("r#") else v.name
+    if v.kind == "unit":
+        return 'f.write_str("%s")' % name
+    if v.kind == "tuple":
+        return 'f.debug_tuple("%s")%s.finish()' % (name, "".join(".field(%s)" % v.binder(i) for i in range(len(v.fields))))
+    return 'f.debug_struct("%s")%s.finish()' % (name, "".join('.field("%s", %s)' % (v.lit_name(i), v.binder(i)) for i in range(len(v.fields))))
+
+
 def build(case, with_contract=False, control=None):
     td = case.td
     exprs, minlen = {}, {}
@@ -220,6 +247,9 @@ def build(case, with_contract=False, control=None):
         if v.attr:
             exprs[v.name] = ref_attr(v.attr, v)
             minlen[v.name] = v.attr.lit.text_len() + len(v.attr.lit.phs())
+        elif td.derive == "Debug":
+            exprs[v.name] = ref_debug_builder(v)
+            minlen[v.name] = len(v.name)
         else:
             exprs[v.name] = ref_implicit(td, v)
             minlen[v.name] = 1
